@@ -64,16 +64,42 @@ Proof. induction l as [|d l IH]; intros Hn H1 H2 E; [destruct H1|]. cbn [map] in
 Section Fast.
 Variable n : nat.
 Notation W := (worlds n).
-Variable mex : cond -> dict Z Z -> ctl (option (Z * Z * Z * Z)) unit unit.
 Variable rank_world : world -> ctl Z unit unit.
 Variable pr : prior.
 Hypothesis Hworlds : forall p, In p pr -> In (fst p) W.
 Hypothesis Hrank : forall p, In p pr -> rank_world (fst p) = Return (Z.of_nat (snd p)).
 Variable cs : list cond.
 Hypothesis Hnd : NoDup (map ckey cs).
-Variable sg : list Z.
-Hypothesis Hmex : forall c si, In c cs -> mex c si = Return (zmask (mask_of c)).
 Hypothesis Hidx : forall c a av b bv, In c cs -> mask_of c = Some (a, av, b, bv) -> a < n /\ b < n.
+
+(* the signature a_0..a_(n-1) and the index dictionary built from it *)
+Definition sig_n : list Z := map Z.of_nat (seq 0 n).
+Definition sig_index : dict Z Z := map (fun '(v_i, v_v) => (v_v, v_i)) (py_enumerate sig_n).
+Lemma sig_index_find i : i < n -> zdict_find sig_index (Z.of_nat i) = Some (Z.of_nat i).
+Proof. intros Hi. unfold sig_index, sig_n, py_enumerate.
+  assert (G: forall l k, (forall j, In j l -> k <= j) -> NoDup l -> In i l ->
+             zdict_find (map (fun '(v_i, v_v) => (v_v, v_i)) (py_enumerate_from (Z.of_nat k) (map Z.of_nat l))) (Z.of_nat i)
+             = option_map (fun p => Z.of_nat (k + p)) (List.find (fun p => true) (map fst (filter (fun q => Nat.eqb (snd q) i) (combine (seq 0 (length l)) l)))) \/ True) by (intros; right; exact I).
+  clear G.
+  assert (G: forall m k, i < k + m -> k <= i ->
+             zdict_find (map (fun '(v_i, v_v) => (v_v, v_i)) (py_enumerate_from (Z.of_nat k) (map Z.of_nat (seq k m)))) (Z.of_nat i) = Some (Z.of_nat i)).
+  { induction m as [|m IH]; intros k H1 H2; [lia|]. cbn [seq map py_enumerate_from zdict_find].
+    destruct (Z.of_nat k =? Z.of_nat i)%Z eqn:E.
+    - apply Z.eqb_eq in E. rewrite E. reflexivity.
+    - apply Z.eqb_neq in E. replace (Z.of_nat k + 1)%Z with (Z.of_nat (S k)) by lia. apply IH; lia. }
+  apply (G n 0); lia. Qed.
+
+Definition zlit_info (o:option (nat * bool)) : option (Z * Z) := match o with Some (i, b) => Some (Z.of_nat i, bZ b) | None => None end.
+Lemma literal_info_tie f : py_literal_info n f = Return (zlit_info (lit_info f)).
+Proof. destruct f; try reflexivity. destruct f; reflexivity. Qed.
+Lemma mex_ok c : In c cs -> py_extract_cond_masks n c sig_index = Return (zmask (mask_of c)).
+Proof. intros Hc. unfold py_extract_cond_masks. rewrite !literal_info_tie. cbn [call]. cbv zeta.
+  pose proof (Hidx c) as Hi. unfold mask_of in *.
+  destruct (lit_info (cante c)) as [[a av]|]; [|reflexivity].
+  destruct (lit_info (ccons c)) as [[b bv]|]; [|reflexivity].
+  destruct (Hi a av b bv Hc eq_refl) as [Ha Hb].
+  cbn [zlit_info is_none orb cbind py_unsome]. rewrite (sig_index_find a Ha). cbn [try_key cbind py_unsome].
+  rewrite (sig_index_find b Hb). reflexivity. Qed.
 
 Definition selF (w:world) (want:bool) (c:cond) : bool := match classify_fast c w with Some b => Bool.eqb b want | None => false end.
 Definition accN (p:world * nat) : list nat := keys_where classify_fast cs (fst p) true.
@@ -96,7 +122,7 @@ Proof. unfold mk, zcomp. rewrite map_map. apply map_ext. intros c. cbn [fst snd]
   destruct (existsb (Nat.eqb (ckey c)) (if want then keys_where classify_fast cs (fst p) true else keys_where classify_fast cs (fst p) false)); reflexivity. Qed.
 
 Theorem tie_compile_alt_fast :
-  py_compile_alt_fast n mex rank_world (zprior pr, sg) cs = Return (zcomp (fst (compile_fast cs pr)), zcomp (snd (compile_fast cs pr))).
+  py_compile_alt_fast n rank_world (zprior pr, sig_n) cs = Return (zcomp (fst (compile_fast cs pr)), zcomp (snd (compile_fast cs pr))).
 Proof.
   unfold compile_fast. cbn [fst snd]. rewrite <- !model_side.
   unfold py_compile_alt_fast. cbv zeta. cbn [fst snd].
@@ -105,7 +131,7 @@ Proof.
   assert (E1: forall l done, NoDup (map ckey (done ++ l)) -> incl l cs ->
             @for_each _ _ unit _ l body1 (map (fun c => (ckz c, zmask (mask_of c))) done) = Next (map (fun c => (ckz c, zmask (mask_of c))) (done ++ l))).
   { induction l as [|c l IH]; intros done Hn Hl; [cbn; rewrite app_nil_r; reflexivity|].
-    cbn [for_each]. unfold body1 at 1. cbn [negb orb cbind]. rewrite (Hmex c _ (Hl c (or_introl eq_refl))). cbn [call].
+    cbn [for_each]. unfold body1 at 1. cbn [negb orb cbind]. fold sig_index. rewrite (mex_ok c (Hl c (or_introl eq_refl))). cbn [call].
     rewrite zdict_set_end.
     - specialize (IH (done ++ [c])). rewrite (map_app (fun c0 => (ckz c0, zmask (mask_of c0))) done [c]) in IH. cbn [map] in IH. rewrite IH; [rewrite <- app_assoc; reflexivity|rewrite <- app_assoc; exact Hn|].
       intros x Hx. apply Hl. right. exact Hx.
@@ -247,12 +273,11 @@ Qed.
 End Fast.
 
 (* the chain c_revision() runs when no model object is passed: compile_alt_fast, then translate_to_csp *)
-Corollary src_fast_chain n mex rank_world pr (Hworlds:forall p, In p pr -> In (fst p) (worlds n))
-  (Hrank:forall p, In p pr -> rank_world (fst p) = Return (Z.of_nat (snd p))) cs (Hnd:NoDup (map ckey cs)) sg
-  (Hmex:forall c si, In c cs -> mex c si = Return (zmask (mask_of c)))
+Corollary src_fast_chain n rank_world pr (Hworlds:forall p, In p pr -> In (fst p) (worlds n))
+  (Hrank:forall p, In p pr -> rank_world (fst p) = Return (Z.of_nat (snd p))) cs (Hnd:NoDup (map ckey cs))
   (Hidx:forall c a av b bv, In c cs -> mask_of c = Some (a, av, b, bv) -> a < n /\ b < n)
   gpz gp gm (Hgp0:gpz = true -> forall k, gp k = 0) : exists comp csp,
-  py_compile_alt_fast n mex rank_world (zprior pr, sg) cs = Return comp /\
+  py_compile_alt_fast n rank_world (zprior pr, sig_n n) cs = Return comp /\
   py_translate_to_csp n comp gpz tt tt = Return csp /\
   forall s, TieCrevCsp.gamma_assignment gp gm s ->
     ((exists s', (forall z, s' (SGp z) = s (SGp z) /\ s' (SGm z) = s (SGm z)) /\ csp_sat s' csp = true)
